@@ -511,8 +511,40 @@ def rational_pow(base, f):
     if not c.is_positive(base):
         if c.branch(base < 0):
             raise Unsupported("fractional power of a negative number (complex result)")
+    # pull perfect q-th powers of positive atoms out of the root: root_q(a * t^q) = root_q(a) * t
+    outside = z3.RealVal(1)
+    counts = {}
+    order = []
+    for atom, sgn in _factors(base):
+        i = atom.get_id()
+        if i not in counts:
+            counts[i] = [atom, 0]
+            order.append(i)
+        counts[i][1] += sgn
+    inside = None
+    pulled = False
+    for i in order:
+        atom, n = counts[i]
+        if z3.is_rational_value(atom) and atom.as_fraction() == 1:
+            continue
+        m = 0
+        if c.is_positive(atom) and abs(n) >= q:
+            m = (abs(n) // q) * (1 if n > 0 else -1)
+            outside = outside * _ipow(atom, m)
+            pulled = True
+        rest = n - m * q
+        if rest != 0:
+            t = _ipow(atom, rest)
+            inside = t if inside is None else inside * t
+    if pulled:
+        inner_base = inside if inside is not None else z3.RealVal(1)
+        if z3.is_rational_value(inner_base) and inner_base.as_fraction() == 1:
+            return SReal(_ipow(outside, p))
+        inner = rational_pow(inner_base, Fraction(1, q))
+        return SReal(_ipow(outside * inner.z, p))
     r = root_fn(q)(base)
-    c.assume(root_fact(q, base))
+    c.assume(root_fact(q, base), defer=True)
+    c.assume(z3.Implies(base > 0, r > 0))
     if c.is_positive(base):
         c.mark_positive(r)
     if p < 0 and not c.is_positive(base):
